@@ -177,7 +177,7 @@ def run(rep):
         if not explorable:
             wd2 = wd
     mprun.validate_model(progs, recs)
-    opts = rp.OPTION_SETS if tier == 'thorough' else rp.OPTION_SETS[:1] + rp.OPTION_SETS[3:4]
+    opts = (rp.OPTION_SETS if tier == 'thorough' else rp.OPTION_SETS[:1] + rp.OPTION_SETS[3:4]) + [rp.LISTS_OPTION]
     div, nrun, errs = rp.replay_all(progs, recs, opts, name='c01')
     rep.set('programs', len(progs))
     rep.set('executions', len(recs))
